@@ -22,3 +22,50 @@ Definition wf_prefix (afi : N) (p : prefix) : Prop :=
 (* unicast NLRI; the path identifier is only transmitted with add-path *)
 Definition wf_nlri (afi : N) (ap : bool) (n : nlri) : Prop :=
   n_labels n = [] /\ u32 (n_id n) /\ (ap = false -> n_id n = 0) /\ wf_prefix afi (n_pfx n).
+
+(* ------------------------------------------------------------------ path attributes *)
+Definition known_type (t : N) : bool :=
+  (t =? 1) || (t =? 2) || (t =? 3) || (t =? 4) || (t =? 5) || (t =? 6) || (t =? 7) || (t =? 8) || (t =? 9) ||
+  (t =? 10) || (t =? 14) || (t =? 15) || (t =? 18) || (t =? 32).
+
+Definition asn_ok (as4 : bool) (a : N) : Prop := if as4 then u32 a else a < 65536.
+Definition seg_ok (as4 : bool) (s : N * list N) : Prop :=
+  (fst s = 1 \/ fst s = 2) /\ 1 <= len (snd s) <= 255 /\ Forall (asn_ok as4) (snd s).
+
+Definition nonempty_seg (s : N * list N) : bool := negb (len (snd s) =? 0).
+
+Definition large_ok (c : N * N * N) : Prop := u32 (fst (fst c)) /\ u32 (snd (fst c)) /\ u32 (snd c).
+
+Definition nexthop_ok (nh : ip) : Prop := ipFromBytes (ipBytes nh) = Some nh.
+
+Definition bytes_ok (l : list N) : Prop := Forall (fun x => x < 256) l.
+
+
+(* what the serializer of the attribute's type code can represent under the options o *)
+Definition wf_attr (o : eopts) (a : attr) : Prop :=
+  let t := a_type a in
+  let ap afi := addPathFor (doptsOf o) afi 1 in
+  if t =? 1 then exists v, a_val a = AVOrigin v /\ v < 256
+  else if t =? 2 then
+    exists segs, a_val a = AVASPath segs /\ Forall (seg_ok (use32 o)) (filter nonempty_seg segs)
+  else if t =? 3 then exists v, a_val a = AVNextHop (IP4 v) /\ u32 v
+  else if (t =? 4) || (t =? 5) || (t =? 9) then exists v, a_val a = AVU32 v /\ u32 v
+  else if t =? 6 then a_val a = AVNone
+  else if t =? 7 then exists asn ad, a_val a = AVAggregator asn ad /\ asn < 65536 /\ u32 ad
+  else if t =? 8 then exists l, a_val a = AVComms l /\ Forall u32 l
+  else if t =? 32 then exists l, a_val a = AVLarge l /\ Forall large_ok l
+  else if t =? 10 then exists l, a_val a = AVCluster l /\ Forall u32 l
+  else if t =? 14 then
+    exists afi nh nl, a_val a = AVMPReach afi 1 nh nl /\ (afi = 1 \/ afi = 2) /\ nexthop_ok nh /\
+                      Forall (wf_nlri afi (ap afi)) nl
+  else if t =? 15 then
+    exists afi nl, a_val a = AVMPUnreach afi 1 nl /\ (afi = 1 \/ afi = 2) /\ Forall (wf_nlri afi (ap afi)) nl
+  else known_type t = false /\ t < 256 /\ exists b, a_val a = AVUnknown b /\ bytes_ok b.
+
+(* the content that has to survive: type code and value (AS_PATH segments without ASNs carry nothing and are
+   not sent); for unknown attributes also the Optional and Partial flags, Transitive being forced *)
+Definition norm_val (v : attrval) : attrval :=
+  match v with AVASPath segs => AVASPath (filter nonempty_seg segs) | _ => v end.
+Definition same_attr (a a' : attr) : Prop :=
+  a_type a' = a_type a /\ a_val a' = norm_val (a_val a) /\
+  (known_type (a_type a) = false -> a_opt a' = a_opt a /\ a_trans a' = true /\ a_part a' = a_part a).
